@@ -217,7 +217,7 @@ PROPS["C05"] = dict(
         "OutPointsCache getters (assumed to return the block's outpoints and their cached values)",
         "address parsing and the identical error mapping in both endpoints (two 3-arm matches, not under contract)",
     ],
-    assumptions=COMMON_ASSUMPTIONS + ["running balances stay within [0, 2^64) (sum of all satoshi <= 21e14; no address spends more than it holds)"],
+    assumptions=COMMON_ASSUMPTIONS + ["running balances stay within [0, 2^64) (sum of all satoshi <= 21e14; no address spends more than it holds)", "OutPointsCache representation invariant (stated precondition cache_lists_have_tx_outs): every outpoint the cache lists for a block and an address has its TxOut in the cache"],
 )
 
 PROPS["C16"] = dict(
@@ -313,7 +313,7 @@ PROPS["C15"] = dict(
         "fee_percentiles.rs:110-116 the fallback `txdata().iter().filter_map(get_tx_fee_per_byte).collect()`; outpoints_cache.rs insert_outpoints: how input_sum is accumulated (cache / same-block / UTXO-set lookups)",
         "percentiles(): sort_unstable + (0..=100).map(closure).collect() glue around the verified slices; empty input => empty output (by inspection)",
     ],
-    assumptions=COMMON_ASSUMPTIONS + ["fee < 2^64/1000 satoshi; the inputs of one transaction sum to < 2^64/1000 satoshi; at most 2^25 fee rates"],
+    assumptions=COMMON_ASSUMPTIONS + ["fee < 2^64/1000 satoshi; the inputs of one transaction sum to < 2^64/1000 satoshi; at most 2^25 fee rates", "the previous outputs spent by a transaction of an unstable block are in the TxOut cache (precondition of get_tx_fee_per_byte; the repo traps otherwise)"],
 )
 
 PROPS["C01"] = dict(
@@ -337,7 +337,7 @@ PROPS["C01"] = dict(
         "outpoints_cache.rs insert_outpoints / remove (unstable deltas), address_utxoset.rs apply_block / into_iter, multi_iter.rs merge",
         "utxo_set.rs::get_address_outpoints pipeline (range scan + the equality filter + in-progress block merge)",
     ],
-    assumptions=COMMON_ASSUMPTIONS + ["heights < 2^31 in the key-range harnesses", "StableBTreeMap::range returns exactly the keys within the bounds in Blob order"],
+    assumptions=COMMON_ASSUMPTIONS + ["heights < 2^31 in the key-range harnesses", "StableBTreeMap::range returns exactly the keys within the bounds in Blob order", "OutPointsCache representation invariant (stated precondition cache_lists_have_tx_outs): every outpoint the cache lists for a block and an address has its TxOut in the cache"],
 )
 
 PROPS["C06"] = dict(
